@@ -12,7 +12,22 @@ NA = {
 
 MIRSYM = 'bounded symbolic execution of the rustc MIR of the real functions (mirsym path mode), properties discharged by z3 (Int encoding, division lemma) and re-decided by cvc5 + z3 4.8 from SMT-LIB2; counterexamples replayed natively'
 
+PATHS = 'bounded path exploration of the rustc MIR of the real async state-machine functions (mirsym: symbolic environment outcomes, diamond merging, callee contracts), trace monitors discharged by z3; arithmetic clauses re-decided by cvc5 + z3 4.8; counterexamples replayed on the real StateMachine with a scripted environment'
+SM_NOTE = 'Trusted: model library for std/futures/http plumbing (listed in evidence.assumptions), logging off, environment futures ready when polled, rustc nightly MIR of the current tree, z3. Callee contracts used in one exploration are established by another exploration of the callee\'s own MIR (assume/guarantee). Outside: event delivery to the observer (C13), transport/URL algebra of http/hyper.'
+
 CHECKS = {
+ 'C02': dict(
+    text='All paths of the single exchange function (do_omaha_request_and_update_context) are enumerated with the handler, build result, HTTP result, status, headers and verification verdict symbolic: verification is unconditional and first, and a failed one returns CupValidation with no header read, context write, announcement or storage traffic. All paths of the attempt loop, of start_update_check, ping_omaha and the event-report function (exchange replaced by that contract) show no retry, failure count +1, untouched last-contact time, no app-set update, one lost-event metric. Every forgery position in every request kind is a path of these explorations, which no test enumerates.',
+    note=SM_NOTE, design='4/C02', technique=PATHS),
+ 'C06': dict(
+    text='The attempt loop of perform_update_check is unrolled past its bound with every per-attempt outcome symbolic (6 error classes, caller error or not, poll interval present or not, status, clock): at most 3 requests, retry iff transient and allowed, back-off window [2^(k-1)s-500ms, +500ms) for every random draw and two draws differ, metrics count exactly the attempts, session id constant and request id fresh, payload unchanged. Covers the whole outcome alphabet^3, not sampled sequences.',
+    note=SM_NOTE, design='4/C06', technique=PATHS),
+ 'C07': dict(
+    text='For all header byte strings up to the bound (12 quick / 24 thorough bytes, every byte value), every status and every old value: the interval after an authenticated exchange equals min(N,86400)s iff the header is a plain decimal u64, a change is announced, persisted and committed in that order before the exchange returns, no-response exchanges leave it unchanged; Context::persist / Context::load encode and decode it (and the other two keys) as specified for every context / every stored integer.',
+    note=SM_NOTE + ' Header model: HeaderValue::to_str = visible ASCII; str::parse::<uN> = Rust FromStr grammar; duplicates in HeaderMap not modelled.', design='4/C07', technique=PATHS),
+ 'C08': dict(
+    text='One check / one ping is executed from an arbitrary in-memory context (counter, times, interval symbolic at full width), which is the inductive step for histories of any length: counter and last-contact rules per error class, final announcements, persist+commit before return; the three context keys are written only by Context::persist from one context, and persist/load are inverse at microsecond precision for every context, so with the Storage contract (atomic commit) a crash at any instant leaves the last commit.',
+    note=SM_NOTE + ' Storage implementations\' atomicity is assumed (trait contract).', design='4/C08', technique=PATHS),
  'C19': dict(
     text='Every path of the real MIR of both time conversions, the truncation helper, the StorageExt time wrappers and the two-clock algebra (destructure, complete_with, checked_to_*, From, Add/Sub, is_after_or_eq_any) is executed symbolically with full-width integers; each clause of the property is an unsat query over all i64 microsecond values / all (sec: i64, nsec < 1e9) times / all durations. Within the stated trusted base this covers every input, which no finite test list does.',
     note='Trusted: the std::time model (Timespec = (i64 sec, u32 nsec<1e9); duration_since/checked_add/checked_sub/Add/Sub/Duration::{from_*,as_*} per std docs), the MIR text emitted by rustc nightly for the current tree, z3/cvc5. Outside: platform SystemTime ranges other than i64 seconds; Display impls.',
@@ -30,7 +45,7 @@ m = {
    {'name': 'replay', 'path': 'replay/', 'serves_properties': sorted(CHECKS), 'kind_free_text': 'native harness (path dependency on /repo/omaha-client) that executes the real code on solver models'},
  ],
  'checks': [],
- 'notes': 'fix: commits in /repo: 0646d69 (C19 i64::MIN micros), dbaa4ee (C19 truncate toward epoch); see known_findings.txt',
+ 'notes': 'fix: commits in /repo: 0646d69, dbaa4ee (C19), 306c1ee, 7785c1d (C14 counter overflows); see known_findings.txt',
  'not_applicable': [],
 }
 for p in props:
